@@ -13,6 +13,21 @@ FLOORS = {
     "quick": {"distinct_nontrivial": 100, "rows_checked": 20000, "cases[GaussianCovCost]": 30},
     "thorough": {"distinct_nontrivial": 2000, "rows_checked": 500000},
 }
+ANCHORS = [
+    "skchange.costs.l2_cost.l2_cost_optim",
+    "skchange.costs.l2_cost.l2_cost_fixed",
+    "skchange.costs.gaussian_var_cost.gaussian_var_cost_optim",
+    "skchange.costs.gaussian_var_cost.gaussian_var_cost_fixed",
+    "skchange.costs.gaussian_var_cost.var_from_sums",
+    "skchange.costs.gaussian_cov_cost.gaussian_cov_cost_optim",
+    "skchange.costs.gaussian_cov_cost.gaussian_cov_cost_fixed",
+    "skchange.utils.numba.stats.col_cumsum",
+    "skchange.utils.numba.stats.log_det_covariance",
+    "skchange.costs.utils.check_mean",
+    "skchange.costs.utils.check_var",
+    "skchange.costs.utils.check_cov",
+    "skchange.costs.base.BaseCost._evaluate",
+]
 LEVEL = "exploration"
 RULE = (
     "case = (cost kind, parameter mode, seeded data matrix of a catalogue kind, n<=40 quick / "
